@@ -936,7 +936,9 @@ func TestC04(t *testing.T) {
 		for _, e := range append([]string{"ENCR_AES_CBC_128"}, names...) {
 			for _, i := range append([]string{"AUTH_HMAC_SHA1_96"}, names...) {
 				for m := 0; m < 4; m++ {
-					c04Names.Eval(c, c04NameIn{EncrName: e, IntegName: i, RecvI: m&1 == 1, WithHdr: m&2 == 2})
+					if !c04Names.Eval(c, c04NameIn{EncrName: e, IntegName: i, RecvI: m&1 == 1, WithHdr: m&2 == 2}) && c.Failures() > 5 {
+						break
+					}
 				}
 			}
 		}
